@@ -156,6 +156,43 @@ prop('C09',
      assumptions=['absence of hidden state (no statics / interior mutability / threads in frost-core)',
                   'public-package entry == G*signing share needs equal commitment lengths (premise; enforced by part2 for the set it is given)'],
      design_ref='DESIGN.md section 4 C09')
+prop('C10',
+     level_text='For every ciphersuite (abstract field/group), every (n,t), identifier set, remaining subset, old key material and RNG stream: Verus proves the real text of '
+                'compute_refreshing_shares / refresh_share / refresh_dkg_part1 / refresh_dkg_part2 / refresh_dkg_shares (and of generate_secret_polynomial / generate_secret_shares / '
+                'SecretShare::verify / KeyPackage::try_from / PublicKeyPackage::from_dkg_commitments / evaluate_vss they call) against contracts that state the WHOLE result and the EXACT error of '
+                'every guard in source order.  Dealer: no recorded threshold / fewer than t identifiers (InvalidMinSigners), identifier not in the old public key package (UnknownIdentifier), '
+                'duplicates; else shares of r = [0] ++ (t-1 fresh draws) with the commitment published WITHOUT its identity entry, new public package entry = G*r(i) + old entry, same group key, '
+                'threshold and header, domain = the identifiers given.  refresh_share: identity re-inserted, VSS check, re-completed length == current threshold (InvalidMinSigners), result = '
+                'current package with share r(i)+s_i and verifying share G*(r(i)+s_i).  refresh_dkg_part1: polynomial [0] ++ (t-1 draws), stripped commitment, proof-of-knowledge nonce drawn AFTER '
+                'the coefficients (disjoint stream segments).  refresh_dkg_part2: package count, re-completed length == t for every sender (IncorrectNumberOfCommitments), round-2 share for l = r(l), '
+                'own r(i) kept, commitment handed on stripped again.  refresh_dkg_shares: threshold equality (InvalidMinSigners), package counts and sender sets, first (ascending) sender whose share '
+                'fails VSS against its RE-COMPLETED commitment (InvalidSecretShare), commitment length mismatch, participant unknown to the old public package (UnknownIdentifier); else signing share = '
+                '((sum of received shares) + own share) + old share, verifying share = G*that, public package = old entries + evaluate_vss(column sum of all re-completed commitments), old group key, '
+                'old header, threshold recorded.  Machine-checked theorems over these contracts (lemmas/vprops_refresh.rs): group key / threshold / header unchanged and left-out participants removed '
+                'from the package; for EVERY participant the dealer-refreshed key package has the same identifier, threshold and group key and verifying share == G*new share == its entry in the '
+                'refreshed public package (conclusions re-establish the premises, so repeated refreshes follow by induction); the same for the distributed variant (entry == G*share by linearity of '
+                'evaluate_vss over the column sums, proved here; equal round-one sets give equal public packages); refreshed shares lie on old polynomial + refreshing polynomial(s) with the SAME '
+                'constant term -- in the distributed variant the accepted shares are forced by the VSS check to be the evaluations of the committed zero-constant polynomials -- hence any >= t '
+                'refreshed packages interpolate to the old secret (native Lagrange proof); a threshold change, an unknown participant and a refreshing polynomial with NON-ZERO constant term are rejected with the '
+                'exact error (a share is accepted against a re-completed commitment iff it equals a(i) - a_0); a signer set mixing old and new shares (or containing a removed participant, who only '
+                'has an old share) interpolates to secret + sum_k lambda_k(0)*err_k and recovers the secret iff that Lagrange-weighted sum of refresh values vanishes.',
+     level_note='NOT decided: (1) that the deviation sum_k lambda_k(0)*r(id_k) of a MIXED old/new signer set is non-zero: it is a non-trivial linear form in the t-1 fresh random coefficients of the '
+                'refreshing polynomial, zero with probability 1/q over the draws -- probabilistic, outside the logic; the theorem pins the exact deviation and the iff.  (2) "can sign"/"fails" at the '
+                'level of signatures: decided here as "the Lagrange-weighted shares add up to the group secret / to secret + deviation"; that this makes aggregate accept resp. reject is C01/C04.  '
+                'Premises of the consistency theorems (stated explicitly, not enforced by the code): the current key package is the one the old public package describes; in the distributed variant the '
+                'caller is not among the senders, its own round-2 secret package is consistent, and all commitments have t-1 entries (enforced by refresh_dkg_part2 on the set it sees; '
+                'refresh_dkg_shares itself does not re-check lengths and, unlike dkg::part2/part3, neither function refuses a map that contains the caller\'s own identifier; refresh_dkg_shares takes '
+                'identifier from the round-2 secret package and group key from the old PUBLIC package without comparing them with the old key package -- observations, see report).  refresh_dkg_part2 / '
+                'refresh_dkg_shares need max_signers >= 1 (u16 subtraction) and a non-empty coefficient vector, as dkg::part2/part3 do: preconditions, true for every package part1 produces.  '
+                'Assumed: generate_coefficients (RNG draws; Kani-backed), sum_commitments (Kani-backed), the outlined std idioms of refresh.rs (Vec::into_iter().chain(Vec).collect() = concatenation; '
+                'iter().map().chain(once()).collect() into a BTreeMap; by-value iteration of a BTreeMap yields its pairs in ascending key order -- vstd has no btree_map::IntoIter model; Vec<Scalar>::clone '
+                'returns equal scalars), T7 identifier order.',
+     assumptions=['a mixed old/new signer set misses the secret unless sum_k lambda_k(0)*r(id_k) == 0: probability 1/q over the refresh randomness, not decided',
+                  'signature-level consequence of "shares add up to the secret / to secret + deviation" is C01 / C04, not re-proved here',
+                  'consistency theorems assume consistent inputs (current package described by the old public package; own identifier not among the senders; commitments of equal length)',
+                  'outlined std idioms in refresh.rs: chain+collect = concatenation; map+chain(once)+collect into BTreeMap (later key wins); BTreeMap by-value iteration in ascending key order; Clone of a field scalar is the identity',
+                  'generate_coefficients returns the next `size` draws of Field::random; sum_commitments = column-wise sum (assumed contracts, Kani-backed, bounded)'],
+     design_ref='DESIGN.md section 4 C10')
 prop('C15',
      level_text='For every ciphersuite (abstract field/group, H3 an arbitrary deterministic function), every signing share and every random '
                 'source (ghost byte stream + position): Verus proves the real text of Nonce::new / nonce_generate_from_random_bytes / '
